@@ -32,6 +32,9 @@ CACHE_QUERIES = [
     "$.xs[?1 == 1]", "$.xs[?$.k == $.k && @]", "$.xs[?@.ys[?@ == $.k]]", "$.xs[?# == 0 || $.k == 2]", "$..[?@.k == $.k]", "$.xs[?@.k in $.list]", "$.xs[?$.list contains @.k]",
     "$.xs[?value($.k) == @.k]", "$.xs[?match($.s, 'a.*') && @.k > 1]", "$.xs[?$.nothing == @.nothing]", "$.xs[?$.a[?@ > 1] && @.k == 2]", "$.xs[?!$.zzz && @.k]",
     "$.xs[?_.list contains @.k || $.k == 5]", "$[?@ == $.k]", "$.a[?@ > $.k]", "$.a[?@ > 1 && 2 > 1]",
+    # a candidate-rooted query whose nested filter mentions no candidate: still one verdict per candidate
+    "$.xs[?@.ys[?$.k == 1]]", "$.xs[?@.ys[?$.k == 1]].k", "$.xs[?@.ys[?_.flag]]", "$.xs[?count(@.ys[?1 == 1]) > 0]", "$.xs[?@.ys[?$.list[0] == 1] && $.k]", "$.xs[?@.ys[?true]]",
+    "$.xs[?@.ys[?$.a[?@ > 1]]]", "$.xs[?!@.ys[?$.k == 1]]", "$..[?@.ys[?$.k == 1]]",
 ]
 COMPOUND_CTX = ["$.xs[?@.k == _.v] | $.xs[?@.k != _.v]", "$.xs[?@.k == $.k] & $.xs[*]", "$.a[?@ > $.k] | $.xs[?_.flag].k | $.list[?@ == _.v]"]
 DOCSEQ = [
